@@ -287,10 +287,33 @@ func genC13(seed uint64, tier string, outdir string) *Report {
 		{genesisOf(0, 2), false, "MaxValidators = 0"},
 		{genesisOf(3, 2, VRec{1, 1, 1}, VRec{1, 2, 1}), false, "operator address twice (repaired by 14a7cf8)"},
 		{genesisOf(3, 2, VRec{2, 3, 1}, VRec{1, 1, 1}, VRec{2, 2, 1}), false, "operator address twice (repaired by 14a7cf8)"},
+		{genesisOf(1, 2, VRec{1, 1, 0}, VRec{2, 2, 1}), false, "powerless entries count towards MaxValidators"},
+		{genesisOf(3, 2, VRec{1, 1, 0}, VRec{2, 1, 0}), false, "consensus key twice, both entries powerless"},
 		{genesisOf(3, 2, VRec{1, 1, 1}, VRec{2, 2, 1}, VRec{3, 3, 1}), true, "exactly MaxValidators"},
+		{genesisOf(3, 2, VRec{1, 1, 0}), true, "a lone zero-power validator: accepted, purged, empty set"},
+		{genesisOf(3, 2, VRec{3, 2, -1}, VRec{1, 1, 0}), true, "only powerless validators: accepted, all purged"},
 		{genesisOf(3, 2, VRec{1, 1, 0}, VRec{2, 2, 1}), true, "a zero-power genesis validator is purged"},
 		{genesisOf(3, 2, VRec{1, 1, -3}, VRec{2, 2, 4}), true, "a negative-power genesis validator is purged"},
 		{ValGenesis{Vals: []VRec{{1, 2, 1}, {3, 1, 2}}, MaxV: 2, Entries: 1, Exported: true, Last: []OpPow{{1, 1}, {3, 2}}}, true, "exported"},
+	}
+	// a powerless (zero / negative power) entry sharing the consensus key (under another
+	// operator) or the operator address (with another key) with a powered entry, in both list
+	// orders: rejected like any other repetition - accepting it would let the purge of the
+	// powerless record delete the bonded one's index entry, or leave a stale entry for ever
+	for _, pw := range []int64{0, -2} {
+		for _, share := range []string{"key", "operator"} {
+			for order := 0; order < 2; order++ {
+				a, b := VRec{1, 1, pw}, VRec{2, 1, 1}
+				if share == "operator" {
+					a, b = VRec{1, 1, pw}, VRec{1, 2, 1}
+				}
+				g := genesisOf(3, 2, a, b, VRec{3, 3, 1})
+				if order == 1 {
+					g = genesisOf(3, 2, VRec{3, 3, 1}, b, a)
+				}
+				gcs = append(gcs, gcase{g, false, fmt.Sprintf("a power %d entry repeats the %s of a powered entry", pw, share)})
+			}
+		}
 	}
 	for _, gc := range gcs {
 		st.caseID++
@@ -333,6 +356,14 @@ func genC13(seed uint64, tier string, outdir string) *Report {
 		} else {
 			g.Vals[1].Op = g.Vals[0].Op
 			why = "operator address twice"
+		}
+		if why != "more validators than MaxValidators" && rg.Chance(60) {
+			// one (or both) of the clashing entries without power
+			g.Vals[rg.Intn(2)].Pow = int64(-rg.Intn(3))
+			if rg.Chance(20) {
+				g.Vals[0].Pow, g.Vals[1].Pow = 0, int64(-rg.Intn(2))
+			}
+			why += ", a clashing entry has no power"
 		}
 		r := st.ve.Start(st.caseID, g, 5, 5)
 		rep.Hist("genesis-check:" + r.Snaps[0].Verdict)
